@@ -139,6 +139,36 @@ func ruleCloseOnce() check.Rule {
 					default:
 						c.Report(armed, key, ss[0].call.Pos(), "the channel has %d close sites that are not all inside one sync.Once.Do: a double close panics", len(ss))
 					}
+					// a channel handed to a consumer carries what the source notified, nothing else: every send into it is made
+					// from a callback of a source (a send from the teardown invents a notification: a Complete the source never
+					// emitted), and the variable that holds it is never re-bound (a producer blocked on the closed channel would
+					// park on the new value — nil — for ever)
+					if chanConsumed(m, sc, ch) {
+						ast.Inspect(sc.Lit.Body, func(n ast.Node) bool {
+							switch st := n.(type) {
+							case *ast.SendStmt:
+								if id, _ := rootIdent(st.Chan); id == nil || objOf(info, id) != ch {
+									return true
+								}
+								fn := innermostFunc(m, sc.Pkg, st)
+								for _, fp := range sc.FnPlaces[fn] {
+									if teardownOf(fp.Ctx) != nil {
+										c.Report(armed, fmt.Sprintf("%s/%s/send-from-teardown", sc, chanLabel(sc, ch)), st.Pos(), "the teardown sends into the channel that was handed to the consumer: the consumer receives a notification the source never emitted")
+									}
+								}
+							case *ast.AssignStmt:
+								if st.Tok == token.DEFINE {
+									return true
+								}
+								for _, l := range st.Lhs {
+									if id, ok := ast.Unparen(l).(*ast.Ident); ok && objOf(info, id) == ch {
+										c.Report(armed, fmt.Sprintf("%s/%s/rebound", sc, chanLabel(sc, ch)), st.Pos(), "the variable that holds the handed-out channel is assigned again: senders and the consumer no longer share one channel (a producer that was blocked on the closed channel retries on the new value and, if it is nil, parks for ever)")
+									}
+								}
+							}
+							return true
+						})
+					}
 					// a channel the operator sends into must have a consumer
 					if !chanConsumed(m, sc, ch) {
 						var send *ast.SendStmt
